@@ -97,7 +97,7 @@ def Val.compare (a b : Val) : Except String Int :=
       | _, _ =>
         let x := a.asNum
         let y := b.asNum
-        if F64.lt y x then .ok 1 else if F64.lt x y then .ok (-1) else .ok 0
+        .ok (if F64.lt y x then 1 else if F64.lt x y then -1 else 0)
 
 /-! ### the heap -/
 
